@@ -163,6 +163,14 @@ func reference(q request, late bool) []seen {
 	return log
 }
 
+// mask hides the per-Mux random prefix of a request id (messages must be reproducible)
+func mask(id string) string {
+	if len(id) >= 9 {
+		return "<prefix>" + id[8:]
+	}
+	return id
+}
+
 // compare returns "" when the observations of a request equal those on a fresh Mux.
 func compare(q request, late bool, log []seen, escaped any) string {
 	if escaped != nil {
@@ -180,10 +188,10 @@ func compare(q request, late bool, log []seen, escaped any) string {
 			return fmt.Sprintf("C05: request %s %s sees W.Status=%d in %s, on a fresh Mux %d", q.method, q.path, log[i].status, log[i].where, ref[i].status)
 		}
 		if log[i].id != log[i].id2 || log[i].id != log[0].id {
-			return fmt.Sprintf("C05: request %s %s: GetID changed during the request (%q, %q, %q)", q.method, q.path, log[0].id, log[i].id, log[i].id2)
+			return fmt.Sprintf("C05: request %s %s: GetID changed during the request (%q, %q, %q)", q.method, q.path, mask(log[0].id), mask(log[i].id), mask(log[i].id2))
 		}
 		if len(log[i].id) < 10 || log[i].id[8] != '-' {
-			return fmt.Sprintf("C05: malformed request id %q", log[i].id)
+			return fmt.Sprintf("C05: malformed request id %q", mask(log[i].id))
 		}
 	}
 	return ""
@@ -267,13 +275,13 @@ func apply(s *sys, op int) string {
 	if len(log) > 0 {
 		id := log[0].id
 		if s.ids[id] {
-			return fmt.Sprintf("C05: request id %q handed out twice by one Mux", id)
+			return fmt.Sprintf("C05: request id %q handed out twice by one Mux", mask(id))
 		}
 		s.ids[id] = true
 		if s.pref == "" {
 			s.pref = id[:9]
 		} else if id[:9] != s.pref {
-			return fmt.Sprintf("C05: request id prefix changed from %q to %q", s.pref, id[:9])
+			return "C05: the request id prefix changed between two requests of one Mux"
 		}
 	}
 	return ""
@@ -330,7 +338,7 @@ func sbody(late bool, plan [][]int) func(c *vsched.Ctx) {
 					}
 					if len(r.log) > 0 {
 						if ids[r.log[0].id] {
-							return fmt.Sprintf("C05: request id %q handed out twice by one Mux", r.log[0].id)
+							return fmt.Sprintf("C05: request id %q handed out twice by one Mux", mask(r.log[0].id))
 						}
 						ids[r.log[0].id] = true
 						lab = append(lab, r.log[0].id[9:])
